@@ -21,7 +21,7 @@ type txProg struct {
 	FaultAt    int    // statement with an injected fault (-1: none)
 }
 
-func schemas(variant int) []*m.Schema {
+func schemas(variant int, multi bool) []*m.Schema {
 	a := &m.Schema{Name: "a", Cols: []m.Col{{Name: "id", Kind: m.Int, NotNull: true}, {Name: "n", Kind: m.Int}, {Name: "s", Kind: m.Str, NotNull: true}, {Name: "b", Kind: m.Bool}}, Index: []string{"n"}}
 	g := &m.Schema{Name: "g", AutoInc: true, Cols: []m.Col{{Name: "id", Kind: m.Int, NotNull: true}, {Name: "n", Kind: m.Int}, {Name: "s", Kind: m.Str}}}
 	c := &m.Schema{Name: "c", Cols: []m.Col{{Name: "id", Kind: m.Int, NotNull: true}, {Name: "n", Kind: m.Int, NotNull: true}, {Name: "s", Kind: m.Str}},
@@ -42,6 +42,13 @@ func schemas(variant int) []*m.Schema {
 		w.Index = []string{"p, q", "q, r"}
 	default:
 		w.Index, w.Unique = []string{"p, q, r", "r"}, []string{"u, v"}
+	}
+	if multi {
+		// A uniqueness check reads the unique index, which has a snapshot of its own: with
+		// concurrent sessions the outcome of an INSERT could depend on two states (finding
+		// sqltx/snapshot-not-fixed-across-indexes) in a way the attribution cannot name.
+		// Unique indexes are exercised where nothing runs concurrently.
+		w.Unique = nil
 	}
 	return []*m.Schema{a, g, c, w}
 }
